@@ -19,6 +19,9 @@ EXPLANATION = ('RACE-RANGE (8 regions x calls), DS-INITSEL, SPEC-DSCONST (16), D
 
 EXPLANATION += ' RVV-SS-HSEM (the vector dataset-initialisation generator computes the SuperscalarHash instruction semantics lane by lane).'
 
+CLAIM += (' The vector dataset-initialisation entry of the RISC-V back-end is handed out only for vector lengths its vsetivli instructions can honour (RVV-JIT-VLEN); initDatasetItem is decided by symbolic evaluation in every configuration that compiles it (DS-ITEM).')
+EXPLANATION += ' RVV-JIT-VLEN.'
+
 
 def run(ctx, R):
     F = astq.Facts(ctx, 'K0')
